@@ -128,6 +128,8 @@ def r12_1(ctx, m, schema):
             break
         seq = norm(rv.value)
         sv = defs.get(seq)
+        if sv is None and isinstance(rv.value, ast.Call):
+            sv = rv.value  # the extraction is sliced directly: extract_path(rec.path)[a:b]
         if sv is None:
             bad = (p, f"the path sequence `{seq}` sliced for this record was not extracted in this iteration")
             break
